@@ -25,7 +25,48 @@ def check(ctx):
     validated_api(ctx, P)
     service_duration(ctx, P, iters)
     resample_only(ctx, P, iters)
+    one_object_per_stream(ctx, P)
     ctx.assume("patience and class-change times are sampled raw (not covered by the property's wording); listed in evidence only")
+
+
+def one_object_per_stream(ctx, P):
+    """every (node, class) stream samples from an object of its own: the Simulation copies each distribution once per node and per class.  A copy taken per
+    class of the whole list keeps the aliasing inside that list -- two nodes given the same (stateful) distribution object would then draw from one shared
+    sequence in interleaved order."""
+    ob = ctx.ob("STREAM", "find_arrival_dists / find_service_dists / find_batching_dists: the deepcopy is taken once per (node, class) of the single distribution of that stream")
+    sim = P.view("Simulation")
+    n = 0
+    for m in ("find_arrival_dists", "find_service_dists", "find_batching_dists"):
+        r = sim.resolve(m)
+        if r is None:
+            ctx.unrecognised("STREAM: Simulation.%s not found" % m)
+            continue
+        cls, fn = r
+        copies = [x for x in rules.walk(P, sim, fn) if isinstance(x, ast.Call) and call_name(x) == "deepcopy"]
+        if not copies:
+            ctx.violation(ob, "R7.stream-object", "Simulation.%s" % m, "no deepcopy", "no-copy-per-stream", "the distributions of the Network are used without a per-stream copy", loc(fn))
+            continue
+        for c in copies:
+            n += 1
+            bound = []
+            p_, child = getattr(c, "_parent", None), c
+            while p_ is not None and not isinstance(p_, ast.FunctionDef):
+                if isinstance(p_, (ast.DictComp, ast.ListComp, ast.GeneratorExp, ast.SetComp)):
+                    # (only the generators whose scope contains the call: all of them for the element, the earlier ones for a later generator's iterable)
+                    for g in p_.generators:
+                        if any(child is y for y in ast.walk(g.iter)):
+                            break
+                        bound += [y.id for y in ast.walk(g.target) if isinstance(y, ast.Name)]
+                elif isinstance(p_, ast.For) and not any(child is y for y in ast.walk(p_.iter)):
+                    bound += [y.id for y in ast.walk(p_.target) if isinstance(y, ast.Name)]
+                child, p_ = p_, getattr(p_, "_parent", None)
+            used = {y.id for a_ in c.args for y in ast.walk(a_) if isinstance(y, ast.Name)}
+            ob.ok("%s:%s" % (m, unparse(c)[:60]), "%s: %s once per (%s)" % (m, unparse(c)[:80], ", ".join(bound)))
+            if len(bound) < 2 or not set(bound) <= used or not (c.args and isinstance(c.args[0], ast.Subscript)):
+                ctx.violation(ob, "R7.stream-object", "Simulation.%s" % m, unparse(c)[:90], "copy-not-per-stream",
+                              "the copy must be taken for each node and each class of that stream's own distribution (found: once per (%s) of `%s`); a copy of a whole "
+                              "list keeps two nodes that were given the same object on one shared copy" % (", ".join(bound) or "call", unparse(c.args[0])[:60] if c.args else "?"), loc(c))
+    ctx.floor("per-stream copies", n, 3)
 
 
 def arrivals(ctx, P, iters):
